@@ -147,6 +147,16 @@ def run(ctx):
                 big[::2] = x
                 x = big[::2]
         f = rng.choice([f_rational, np.exp, np.log, lambda t: t * t / (1 + t)])
+        if rng.random() < 0.3:
+            # low-degree polynomials at "round" points: several steps then give exactly equal error estimates (ties in the selection),
+            # next to generic points that do not
+            f = rng.choice([lambda t: t * t * t, lambda t: t * t, lambda t: t * (1 - t), lambda t: 2 * t * t * t - t])
+            flat_x = x.ravel().copy()
+            for j in range(size):
+                if rng.random() < 0.5:
+                    flat_x[j] = rng.choice([1.0, 1.5, 0.1, 2.0, 0.5, 0.25, 3.0])
+            x = flat_x.reshape(shape)
+            layout = 'C'
         ctx.tried((m, n, order, tuple(x.ravel()[:3]), shape) if size > 1 else None)
         D = nd.Derivative(f, n=n, method=m, order=order, full_output=True)
         with warnings.catch_warnings():
